@@ -1,6 +1,7 @@
 package main
 
 import (
+	"fmt"
 	"context"
 	"crypto/sha256"
 	"encoding/hex"
@@ -101,6 +102,9 @@ func (s *Solver) Prove(query string, wantModel bool) SolveResult {
 			cmd := exec.CommandContext(ctx, a[0], a[1:]...)
 			out, _ := cmd.Output()
 			line := strings.TrimSpace(strings.SplitN(string(out), "\n", 2)[0])
+			if strings.HasPrefix(line, "(error") && sc.name == "z3-new" {
+				fmt.Fprintf(os.Stderr, "govc: SMT error (generator bug): %s\n", line)
+			}
 			ch <- ans{line, sc.name, string(out)}
 		}(sc)
 	}
